@@ -15,6 +15,8 @@ package main
 //	         also uses
 //	fields   each field type in either field section of a `?` struct
 //	returns  each return type for pub/pri x pure/impure methods with an empty body
+//	types    each type as a local variable (unused, used, live across a yield) and
+//	         as a parameter
 //	arith    every binary / compound-assignment operator x u8..u64 x operand shape
 //	ioargs   an io_reader / io_writer / slice argument in every role (receiver or
 //	         argument of a built-in, argument of a method, io_limit / io_bind, unused)
@@ -489,6 +491,69 @@ func ioArgCands(thorough bool) []cand {
 	return out
 }
 
+// ---------------------------------------------------------------- types in every role
+
+// typeCands: each type as a local variable (used or not, also live across a
+// yield), and as a parameter of a pub / pri method.
+func typeCands(thorough bool) []cand {
+	var out []cand
+	type tt struct{ typ, write, read string }
+	num := func(t string) tt { return tt{t, "e = 1", "this.f = e as base.u32"} }
+	types := []tt{
+		num("base.u8"), num("base.u16"), num("base.u64"), num("base.u32[..= 9]"), {"base.u32[1 ..= 9]", "", ""},
+		{"base.bool", "e = true", "if e {\nthis.f = 1\n}"}, {"base.status", "e = \"#bad\"", "if e.is_ok() {\nthis.f = 1\n}"},
+		{"array[4] base.u8", "e[1] = 1", "this.f = e[1] as base.u32"}, {"array[300] base.u8", "e[1] = 1", "this.f = e[1] as base.u32"},
+		{"array[1] base.u8", "e[0] = 1", "this.f = e[0] as base.u32"}, {"array[0] base.u8", "", ""},
+		{"array[2] array[3] base.u8", "e[1][2] = 1", "this.f = e[1][2] as base.u32"}, {"array[4] base.u8[..= 3]", "e[1] = 1", "this.f = e[1] as base.u32"},
+		{"array[4] base.u32", "e[1] = 1", "this.f = e[1]"}, {"array[4] base.bool", "e[1] = true", ""},
+		{"slice base.u8", "", "this.f = (e.length() & 3) as base.u32"}, {"roslice base.u8", "", "this.f = (e.length() & 3) as base.u32"},
+		{"slice base.u8[..= 3]", "", ""}, {"slice base.u16", "", ""}, {"slice base.u32", "", ""}, {"slice base.bool", "", ""},
+		{"slice array[2] base.u8", "", ""}, {"slice slice base.u8", "", ""}, {"slice bar", "", ""},
+		{"table base.u8", "", "this.f = (e.width() & 3) as base.u32"}, {"rotable base.u8", "", ""}, {"table base.u16", "", ""},
+		{"bar", "e.y = 1", "this.f = e.y as base.u32"}, {"array[2] bar", "e[1].y = 1", "this.f = e[1].y as base.u32"},
+		{"nbar", "e.y = 1", "this.f = e.y as base.u32"}, {"ptr bar", "", ""}, {"nptr bar", "", ""}, {"nptr foo", "", ""}, {"foo", "", ""},
+		{"base.io_reader", "", ""}, {"base.io_writer", "", ""}, {"base.token_reader", "", ""}, {"base.token_writer", "", ""},
+		{"base.range_ii_u32", "", ""}, {"base.rect_ie_u32", "", ""}, {"base.utility", "", ""}, {"base.empty_struct", "", ""},
+		{"base.bitvec256", "", ""}, {"base.optional_u63", "", ""}, {"base.pixel_format", "", ""}, {"base.more_information", "", ""},
+		{"base.hasher_u32", "", ""}, {"base.pixel_swizzler", "", ""}, {"base.image_config", "", ""}, {"nptr base.image_config", "", ""},
+	}
+	indent := func(body string) string {
+		var b strings.Builder
+		for _, ln := range strings.Split(body, "\n") {
+			if ln != "" {
+				b.WriteString("    " + ln + "\n")
+			}
+		}
+		return b.String()
+	}
+	for _, t := range types {
+		h := ""
+		if strings.Contains(t.typ, "nbar") {
+			h = "pri struct nbar(\n    y : base.u8,\n)\n\n"
+		} else if strings.Contains(t.typ, "bar") {
+			h = "pub struct bar?(\n    y : base.u8,\n)\n\n"
+		}
+		h += "pri status \"#bad\"\n\n" + tinyStruct + "\n"
+		mk := func(role, method string) {
+			out = append(out, cand{family: "types", shape: "types-in-every-role", feature: "types",
+				desc: fmt.Sprintf("types: %s as %s", t.typ, role), header: h, method: method})
+		}
+		mk("an unused local variable", "pub func foo.MNAME!() {\n    var e : "+t.typ+"\n}\n")
+		mk("an unused local variable of a coroutine", "pub func foo.MNAME?() {\n    var e : "+t.typ+"\n    yield? base.\"$short read\"\n}\n")
+		if t.write != "" || t.read != "" {
+			mk("a local variable, written and read", "pub func foo.MNAME!() {\n    var e : "+t.typ+"\n"+indent(t.write)+indent(t.read)+"}\n")
+			mk("a local variable live across a yield", "pub func foo.MNAME?() {\n    var e : "+t.typ+"\n"+indent(t.write)+"    yield? base.\"$short read\"\n"+indent(t.read)+"}\n")
+		}
+		mk("a parameter of a pub method", "pub func foo.MNAME!(e: "+t.typ+") {\n}\n")
+		mk("a parameter of a pub coroutine", "pub func foo.MNAME?(e: "+t.typ+") {\n    yield? base.\"$short read\"\n}\n")
+		if thorough {
+			mk("a parameter of a pri method", "pri func foo.MNAME!(e: "+t.typ+") {\n}\n")
+			mk("a parameter of a pub method with a body", "pub func foo.MNAME!(e: "+t.typ+") {\n    this.f = 1\n}\n")
+		}
+	}
+	return out
+}
+
 func buildCands(thorough bool) []cand {
 	var out []cand
 	for _, s := range progSpecs(thorough) {
@@ -501,5 +566,6 @@ func buildCands(thorough bool) []cand {
 	out = append(out, returnCands(thorough)...)
 	out = append(out, arithCands(thorough)...)
 	out = append(out, ioArgCands(thorough)...)
+	out = append(out, typeCands(thorough)...)
 	return out
 }
